@@ -600,9 +600,9 @@ def make_jobs(ctx: Ctx) -> list[dict]:
     for i, (name, steps) in enumerate(scripted):
         for mode in (MODES if not ctx.quick() else [MODES[(i + seed) % 3]]):
             add("scripted", name, steps, mode)
-    for i in range(ctx.pick(8, 150)):
+    for i in range(ctx.pick(8, 60)):
         add("buildsim", f"{seed}.{i}", buildsim_history(f"c03:{seed}:{i}", ctx.pick(5, 6)), MODES[i % 3])
-    for i in range(ctx.pick(12, 240)):
+    for i in range(ctx.pick(12, 100)):
         rng = random.Random(f"c03cat:{seed}:{i}")
         add("catalog", f"{seed}.{i}", G.catalog_history(rng, ctx.pick(5, 7)), MODES[i % 3])
     return jobs
@@ -668,6 +668,11 @@ def main(ctx: Ctx) -> None:
     bad = algorithm_correspondence(ctx, hists)
     wbad = watcher_correspondence(ctx)
     ctx.count("disagreements_checked", len(bad) + len(wbad))
+    ctx.coverage["level_i_disagreements"] = {"propagate_calls": len(bad), "watcher_cases": len(wbad),
+                                             "first": (bad[0][2] if bad else (wbad[0][:300] if wbad else None))}
+    if bad or wbad:
+        print(f"  level-(i) correspondence: {len(bad)} propagate call(s) and {len(wbad)} watcher case(s) disagree with the model"
+              f" — first: {(bad[0][2] if bad else wbad[0][:200])}", flush=True)
     if hists:
         h = next((x for x in hists if x["kind"] == "catalog"), hists[0])
         ctx.sample({"history": h["hid"], "edits_per_step": [[e.get("kind") for e in s["edits"]] for s in h["steps"]],
